@@ -418,6 +418,89 @@ Proof.
   destruct (rate_inv_run cfg n ops _ _ Hn Hm I0) as [_ Hb]. cbn [app] in Hb. apply Hb.
 Qed.
 
+(* ---- colony: membranes are isolated ------------------------------------------------ *)
+
+Lemma nth_upd_other : forall A (l : list A) i j x, j <> i -> nth_error (upd l i x) j = nth_error l j.
+Proof.
+  induction l as [|y l IH]; intros i j x N; destruct i, j; cbn; auto; try congruence.
+Qed.
+
+Lemma nth_upd_same : forall A (l : list A) i x y, nth_error l i = Some y -> nth_error (upd l i x) i = Some x.
+Proof.
+  induction l as [|z l IH]; intros i x y H; destruct i; cbn in *; try discriminate; auto.
+  eapply IH; eauto.
+Qed.
+
+Lemma sys_step_untouched : forall sys o j, touches j o = false ->
+  nth_error (fst (sys_step sys o)) j = nth_error sys j.
+Proof.
+  intros sys o j T. destruct o as [i op|s d|dlt]; cbn in T; try discriminate.
+  - apply Nat.eqb_neq in T. cbn [sys_step]. destruct (nth_error sys i) as [m|]; auto.
+    destruct (member_step m op) as [m' r]. cbn [fst]. apply nth_upd_other. congruence.
+  - apply Nat.eqb_neq in T. cbn [sys_step].
+    destruct (nth_error sys s) as [ms|]; auto. destruct (nth_error sys d) as [md|]; auto.
+    cbn [fst]. apply nth_upd_other. congruence.
+Qed.
+
+Lemma sys_run_untouched : forall ops sys j, forallb (fun o => negb (touches j o)) ops = true ->
+  nth_error (fst (sys_run sys ops)) j = nth_error sys j.
+Proof.
+  induction ops as [|o ops IH]; intros sys j H; cbn [sys_run]; auto.
+  cbn [forallb] in H. apply andb_prop in H. destruct H as [H1 H2]. apply negb_true_iff in H1.
+  pose proof (sys_step_untouched sys o j H1) as S.
+  destruct (sys_step sys o) as [s1 r]. cbn [fst] in S.
+  specialize (IH s1 j H2). destruct (sys_run s1 ops) as [s2 rs]. cbn [fst] in *. congruence.
+Qed.
+
+(* a step local to j: its effect on j and its result are functions of member j alone *)
+Lemma sys_step_local : forall o j sys1 sys2, local_to j o = true ->
+  nth_error sys1 j = nth_error sys2 j ->
+  nth_error (fst (sys_step sys1 o)) j = nth_error (fst (sys_step sys2 o)) j /\
+  snd (sys_step sys1 o) = snd (sys_step sys2 o).
+Proof.
+  intros o j sys1 sys2 L E. destruct o as [i op|s d|dlt]; cbn in L; try discriminate.
+  - apply Nat.eqb_eq in L. subst i. cbn [sys_step]. rewrite <- E.
+    destruct (nth_error sys1 j) as [m|] eqn:N1.
+    + destruct (member_step m op) as [m' r]. cbn [fst snd]. split; auto.
+      rewrite (nth_upd_same _ sys1 j m' m N1). symmetry in E.
+      now rewrite (nth_upd_same _ sys2 j m' m E).
+    + cbn. split; auto. congruence.
+  - cbn [sys_step fst snd]. split; auto. rewrite !nth_error_map. now rewrite E.
+Qed.
+
+Lemma sys_run_local : forall ops j sys1 sys2, forallb (local_to j) ops = true ->
+  nth_error sys1 j = nth_error sys2 j ->
+  nth_error (fst (sys_run sys1 ops)) j = nth_error (fst (sys_run sys2 ops)) j /\
+  snd (sys_run sys1 ops) = snd (sys_run sys2 ops).
+Proof.
+  induction ops as [|o ops IH]; intros j sys1 sys2 H E; cbn [sys_run]; auto.
+  cbn [forallb] in H. apply andb_prop in H. destruct H as [H1 H2].
+  destruct (sys_step_local o j sys1 sys2 H1 E) as [S1 S2].
+  destruct (sys_step sys1 o) as [a1 r1], (sys_step sys2 o) as [a2 r2]. cbn [fst snd] in *. subst r2.
+  destruct (IH j a1 a2 H2 S1) as [T1 T2].
+  destruct (sys_run a1 ops) as [b1 rs1], (sys_run a2 ops) as [b2 rs2]. cbn [fst snd] in *. subst rs2. auto.
+Qed.
+
+Lemma membranes_isolated_all :
+  (forall sys o j, touches j o = false -> nth_error (fst (sys_step sys o)) j = nth_error sys j) /\
+  (forall sys others j, forallb (fun o => negb (touches j o)) others = true ->
+     nth_error (fst (sys_run sys others)) j = nth_error sys j) /\
+  (forall sys others mine j,
+     forallb (fun o => negb (touches j o)) others = true -> forallb (local_to j) mine = true ->
+     snd (sys_run (fst (sys_run sys others)) mine) = snd (sys_run sys mine) /\
+     nth_error (fst (sys_run (fst (sys_run sys others)) mine)) j = nth_error (fst (sys_run sys mine)) j) /\
+  (forall sys s d ms md, nth_error sys s = Some ms -> nth_error sys d = Some md ->
+     nth_error (fst (sys_step sys (STransfer s d))) d =
+     Some (mkMember (mb_cfg md) (fst (mstep (mb_cfg md) (mb_st md) (OImport (m_learned (mb_st ms))))))).
+Proof.
+  split; [exact sys_step_untouched | split; [intros sys others j; apply sys_run_untouched | split]].
+  - intros sys others mine j H1 H2.
+    destruct (sys_run_local mine j _ sys H2 (sys_run_untouched others sys j H1)) as [A B]. auto.
+  - intros sys s d ms md Hs Hd. cbn [sys_step]. rewrite Hs, Hd. cbn [fst].
+    rewrite (nth_upd_same _ sys d _ md Hd). unfold member_step.
+    destruct (mstep (mb_cfg md) (mb_st md) (OImport (m_learned (mb_st ms)))) as [st' r]. reflexivity.
+Qed.
+
 (* ---- innate immunity ---------------------------------------------------------------- *)
 
 Lemma run_validators_spec : forall vals c n, run_validators vals c = Some n ->
